@@ -100,7 +100,7 @@ def o_middleware(inp):
     if inp.get("name_fields") is not None:
         kw["name_fields"] = tuple(inp["name_fields"])
         nf = kw["name_fields"]
-    out = libgen.maybe_preuse(SeparateCoAuthors(**kw), inp["fields"]).transform(lib)
+    out = libgen.maybe_preuse(SeparateCoAuthors(**kw), inp["fields"], same=lib).transform(lib)
     e = out.blocks[0]
     cls = ["mw-custom-fields" if inp.get("name_fields") is not None else "mw-default-fields"]
     nontrivial = any(k in nf and "and" in v.lower() for k, v in inp["fields"])
